@@ -177,7 +177,7 @@ CLAIMED = {
         technique="Coq proof (per-strategy state-transition theorems, attribute-union theorem) + exhaustive small-scope differential correspondence",
         design="4 (C05)"),
     "C03": dict(
-        text="Coq theorems (Properties/C03.v, 14 statements, closed under the global context) about the model of the GTF "
+        text="Coq theorems (Properties/C03.v, 15 statements, closed under the global context) about the model of the GTF "
              "importer: no line is ever its own parent or child (all lines, keys, configurations); an ordinary line gets exactly "
              "(transcript,line,1), (gene,line,2), (gene,transcript,1), an explicit transcript line exactly (gene,transcript,1), "
              "an explicit gene line nothing; the derived extent is exactly min start .. max end of the related subfeatures on "
@@ -193,7 +193,7 @@ CLAIMED = {
              "MIN/MAX with bare columns, temp-file round trip as identity on tab/newline-free fields, merge on collision) is "
              "hand-written and tied by the correspondence only. Domain: lines carry both ids, one seqid/strand per transcript "
              "and gene, integer coordinates, gene ids distinct from transcript ids. The end-to-end theorems take the "
-             "populated state as given and assume the derived ids new and pairwise distinct (inhabited by an example; component theorems + correspondence).",
+             "populated state as given and assume the derived ids new (their pairwise distinctness is C03_derived_ids_distinct; component theorems + correspondence).",
         technique="Coq proof (relation-triple, min/max extent, flag and collision theorems on the importer model) + differential correspondence with a direct spec check",
         design="4 (C03)"),
     "C10": dict(
